@@ -343,7 +343,7 @@ func (p *Parser) parseTaskOutputs() ([]ast.Node, error) {
 					return nil, illegalToken{
 						expected:    []token.Type{token.STRING, token.IDENT, token.COMMA},
 						encountered: tok,
-						line:        p.getLine(next),
+						line:        p.getLine(tok),
 					}
 				}
 				tok = p.next()
